@@ -25,6 +25,7 @@ import (
 	arieslog "github.com/hyperledger/aries-framework-go/pkg/common/log"
 	"github.com/hyperledger/aries-framework-go/pkg/common/model"
 	"github.com/hyperledger/aries-framework-go/pkg/didcomm/common/service"
+	"github.com/hyperledger/aries-framework-go/pkg/didcomm/protocol/decorator"
 	"github.com/hyperledger/aries-framework-go/pkg/doc/did"
 	"github.com/hyperledger/aries-framework-go/pkg/kms"
 	"github.com/hyperledger/aries-framework-go/pkg/vdr/fingerprint"
@@ -42,9 +43,11 @@ type Exch struct {
 	Inviter string `json:"inviter"`
 	Invitee string `json:"invitee"`
 	Style   string `json:"style"` // dx | oob | implicit | legacy
-	// Forge (legacy only): while the inviter's genuine response is in flight, mallory, who has learned the thread id,
-	// delivers a response of her own making on that thread first: "key" = signed with her own key and saying so,
-	// "liar" = naming the invitation key as signer.
+	// Forge: while the inviter's genuine response is in flight, mallory, who knows the thread id (the invitation's @id),
+	// delivers a response of her own making on that thread first.  Legacy: "key" = connection~sig made with her own key
+	// and saying so, "liar" = naming the invitation key as signer.  DID Exchange: "impostor" = a new DID with a document
+	// pointing to her endpoint, "inviter-did" = the inviter's own DID with such a document, "signed" = as impostor with
+	// did_doc~attach signed by her key.
 	Forge string `json:"forge,omitempty"`
 }
 
@@ -79,6 +82,7 @@ type exchRun struct {
 	proto       string
 	done        bool
 	forged      bool
+	forgedDID   string
 	x, y        *Rec // inviter / invitee record once completed
 	resX, resY  string
 }
@@ -342,6 +346,19 @@ func (r *runner) drain(local []func()) {
 			if p != nil {
 				r.w.net.Peek(p)
 
+				if p.Type == dxResponse {
+					for _, e := range r.exs {
+						if e.Forge != "" && !e.forged && e.Invitee != "mallory" && r.w.agentAt(p.To) == r.w.agent(e.Invitee) &&
+							r.w.agent(e.Invitee).Record(e.inviteeConn) != nil && r.w.agent(e.Invitee).Record(e.inviteeConn).ThreadID == p.Thread {
+							e.forged = true
+
+							if err := r.forgeDXResponse(e, p); err != nil {
+								r.res.obs["forge-skipped"] = err.Error()
+							}
+						}
+					}
+				}
+
 				if p.Type == lcResponse {
 					for _, e := range r.exs {
 						if e.Forge != "" && !e.forged && e.Invitee != "mallory" && r.w.agentAt(p.To) == r.w.agent(e.Invitee) &&
@@ -537,9 +554,29 @@ func (r *runner) evaluate(e *exchRun, when string) {
 		r.res.failf("crosstalk", "%s: %d records of %s share thread %s", when, n, x.Name, yr.ThreadID)
 	}
 
+	// a failure explained by a DID Exchange response mallory was let to forge (the requester does not authenticate the
+	// response by the invitation key) is the known finding; anything else in such a case is not
+	forgedAccepted := e.forged && e.proto == "DX" && (yr.TheirDID == e.forgedDID) && y.Resolve(yr.TheirDID).Endpoint == r.w.M.Endpoint
+	sigOf := func(s string) string {
+		if forgedAccepted {
+			return "forged-dx-response"
+		}
+
+		return s
+	}
+
 	if xr != nil && xr.MyDID != "" && xr.MyDID != yr.TheirDID {
-		r.res.failf("mutual-mismatch", "%s: %s completed thread %s with peer %s, but %s runs that thread as %s", when, y.Name, yr.ThreadID,
+		r.res.failf(sigOf("mutual-mismatch"), "%s: %s completed thread %s with peer %s, but %s runs that thread as %s", when, y.Name, yr.ThreadID,
 			yr.TheirDID, x.Name, xr.MyDID)
+	}
+
+	// the invitee's completed record must lead to the party that holds the invitation: what it resolves the peer
+	// identifier to is the destination of the inviter's own document for this thread
+	if xr != nil && xr.MyDID != "" {
+		if ry, ox := y.Resolve(yr.TheirDID), x.Resolve(xr.MyDID); !sameDest(ry, ox) {
+			r.res.failf(sigOf("mutual-resolution"), "%s: %s completed thread %s and resolves its peer to %s; %s's own document on that thread: %s",
+				when, y.Name, yr.ThreadID, ry, x.Name, ox)
+		}
 	}
 
 	if xr == nil || xr.State != "completed" {
@@ -1306,6 +1343,81 @@ func (r *runner) attack(at Attack) error {
 	return fmt.Errorf("unknown attack %q", at.Kind)
 }
 
+// forgeDXResponse sends, and delivers before the genuine response p, a DID Exchange response made by mallory on the
+// same thread (she knows the thread id from the invitation and the invitee's key from the recipient key id of the
+// genuine response's envelope).
+func (r *runner) forgeDXResponse(e *exchRun, genuine *Packet) error {
+	w := r.w
+	y := w.agent(e.Invitee)
+
+	gdoc := attachedDoc(genuine.Plain)
+	if gdoc == nil {
+		return fmt.Errorf("genuine response unreadable")
+	}
+
+	yKeys := genuine.DestKeys
+	if len(yKeys) == 0 {
+		return fmt.Errorf("invitee keys unknown")
+	}
+
+	raw, err := gdoc.SerializeInterop()
+	if err != nil {
+		return err
+	}
+
+	didv := "did:peer:1zQm" + base58ish(r.rng, 44)
+	if e.Forge == "inviter-did" {
+		didv = gdoc.ID
+	}
+
+	doc := strings.ReplaceAll(strings.ReplaceAll(string(raw), gdoc.ID, didv), w.agent(e.Inviter).Endpoint, w.M.Endpoint)
+	e.forgedDID = didv
+
+	kid, pub, err := w.M.ctx.KMS().CreateAndExportPubKeyBytes(kms.ED25519Type)
+	if err != nil {
+		return err
+	}
+
+	att := &decorator.Attachment{MimeType: "application/json",
+		Data: decorator.AttachmentData{Base64: base64.StdEncoding.EncodeToString([]byte(doc))}}
+
+	if e.Forge == "signed" {
+		kh, err := w.M.ctx.KMS().Get(kid)
+		if err != nil {
+			return err
+		}
+
+		if err := att.Data.Sign(w.M.ctx.Crypto(), kh, ed25519.PublicKey(pub), pub); err != nil {
+			return err
+		}
+	}
+
+	attJSON, err := json.Marshal(att)
+	if err != nil {
+		return err
+	}
+
+	var attMap map[string]interface{}
+	if err := json.Unmarshal(attJSON, &attMap); err != nil {
+		return err
+	}
+
+	msg := map[string]interface{}{"@type": dxResponse, "@id": uuid.New().String(), "~thread": map[string]interface{}{"thid": genuine.Thread},
+		"did": didv, "did_doc~attach": attMap}
+	sender, _ := fingerprint.CreateDIDKey(pub)
+
+	if err := w.M.ctx.OutboundDispatcher().Send(msg, sender, &service.Destination{
+		RecipientKeys: yKeys, ServiceEndpoint: model.NewDIDCommV1Endpoint(y.Endpoint)}); err != nil {
+		return err
+	}
+
+	if fp := w.net.Take(func(p *Packet) bool { return p.From == "mallory" && p.To == y.Endpoint }, 5*time.Second); fp != nil {
+		r.deliver(fp)
+	}
+
+	return nil
+}
+
 // forgeLegacyResponse sends, and delivers before the genuine response p, a connection response made by mallory on
 // the same thread.
 func (r *runner) forgeLegacyResponse(e *exchRun, genuine *Packet) error {
@@ -1541,6 +1653,20 @@ func main() {
 				s := &Spec{Cfg: cfgs[0], Seed: rng.U64(), Exch: []Exch{{Inviter: "alice", Invitee: "bob", Style: lst, Forge: f}}}
 				if other {
 					s.Exch = append(s.Exch, Exch{Inviter: "bob", Invitee: "alice", Style: lst})
+				}
+
+				add("forge", s)
+			}
+		}
+	}
+
+	// a forged DID Exchange response overtaking the genuine one (known finding forged-dx-response)
+	for _, dst := range []string{"dx", "oob", "implicit"} {
+		for _, f := range []string{"impostor", "inviter-did", "signed"} {
+			for _, other := range []bool{false, true} {
+				s := &Spec{Cfg: cfgs[0], Seed: rng.U64(), Exch: []Exch{{Inviter: "alice", Invitee: "bob", Style: dst, Forge: f}}}
+				if other {
+					s.Exch = append(s.Exch, Exch{Inviter: "bob", Invitee: "alice", Style: dst})
 				}
 
 				add("forge", s)
